@@ -9,8 +9,11 @@ Open Scope string_scope.
 
 (* ---- lemmas over the regenerated table ------------------------------------------------------------ *)
 
-(* the loops all of whose blocking operations are cancellable on the pinned tree *)
-Definition cancellable_loops_today : list string := ["HeaderSubmissionLoop"; "DataSubmissionLoop"; "Reaper.Start"].
+(* the loops all of whose blocking operations are cancellable in today's source: all but AggregationLoop, which
+   reaches publishBlockInternal's g.Wait (errgroup over the two broadcasters) *)
+Definition cancellable_loops_today : list string :=
+  ["SyncLoop"; "RetrieveLoop"; "HeaderStoreRetrieveLoop"; "DataStoreRetrieveLoop";
+   "HeaderSubmissionLoop"; "DataSubmissionLoop"; "DAIncluderLoop"; "Reaper.Start"].
 
 Lemma cancellable_loops_guard :
   forallb (fun r => implb (in_list (fst r) cancellable_loops_today) (all_cancellable block_points (snd r))) loop_reach = true.
@@ -31,6 +34,32 @@ Proof.
   exact (prompt_stop_for root reach Hin E).
 Qed.
 
+(* g.Wait returns when both broadcaster calls have returned; they are handed the errgroup's context, a child of
+   the loop's.  UNDER THE ASSUMPTION that the broadcasters return once their context is done - an assumption on
+   a collaborator, tested by the harness's in-flight scenarios, not proved - the wait is cancellable by delegation:
+   [delegated] marks exactly that entry, and then all nine loops stop promptly. *)
+Definition is_broadcast_wait (p : bpoint) : bool :=
+  String.eqb (bp_func p) "publishBlockInternal" && String.eqb (bp_kind p) "wait" && String.eqb (bp_what p) "g.Wait".
+Definition delegated (t : list bpoint) : list bpoint :=
+  map (fun p => if is_broadcast_wait p
+                then {| bp_func := bp_func p; bp_kind := bp_kind p; bp_what := bp_what p; bp_cancellable := true |}
+                else p) t.
+
+Lemma delegated_guard :
+  forallb (fun r => all_cancellable (delegated block_points) (snd r)) loop_reach = true
+  /\ length (filter is_broadcast_wait block_points) = 1.
+Proof. vm_compute. split; reflexivity. Qed.
+
+Lemma prompt_stop_all_delegated (root : string) (reach : list string) :
+  In (root, reach) loop_reach ->
+  forall ms p, In p (activity_points (delegated block_points) reach) -> others ms < length ms ->
+               run_cancelled (activity_points (delegated block_points) reach) (Running p) ms = Returned.
+Proof.
+  intros Hin.
+  pose proof (proj1 delegated_guard) as G. rewrite forallb_forall in G. specialize (G _ Hin). cbn [snd] in G.
+  exact (prompt_stop_activity (delegated block_points) reach G).
+Qed.
+
 (* every operation listed as not cancellable admits an environment under which its loop never returns *)
 Lemma listed_can_hang (root : string) (reach : list string) (p : bpoint) :
   In (root, reach) loop_reach -> In p (activity_points block_points reach) -> bp_cancellable p = false ->
@@ -40,43 +69,43 @@ Proof.
   exact (non_cancellable_can_hang (activity_points block_points reach) p Hc).
 Qed.
 
-(* the worded property ("every activity returns promptly, whatever the environment") is false of today's table:
-   one witness per kind of uncancellable operation *)
+(* without the assumption on the broadcasters the worded property ("every activity returns promptly, whatever the
+   environment") is false of the model of today's source: AggregationLoop parked in g.Wait *)
 Definition full_prompt_stop : Prop :=
   forall root reach, In (root, reach) loop_reach ->
   forall ms p, In p (activity_points block_points reach) -> others ms < length ms ->
                run_cancelled (activity_points block_points reach) (Running p) ms = Returned.
 
-Definition find_point (root fn kind what : string) : option (list bpoint * bpoint) :=
-  match find (fun r => String.eqb (fst r) root) loop_reach with
+Definition find_point_in (t : list bpoint) (lr : list (string * list string)) (root fn kind what : string) : option (list bpoint * bpoint) :=
+  match find (fun r => String.eqb (fst r) root) lr with
   | None => None
   | Some r =>
-      let pts := activity_points block_points (snd r) in
+      let pts := activity_points t (snd r) in
       match find (fun p => String.eqb (bp_func p) fn && String.eqb (bp_kind p) kind && String.eqb (bp_what p) what) pts with
       | Some p => Some (pts, p)
       | None => None
       end
   end.
 
-Definition hangs_once (root fn kind what : string) : bool :=
-  match find_point root fn kind what with
+Definition hangs_once_in (t : list bpoint) (lr : list (string * list string)) (root fn kind what : string) : bool :=
+  match find_point_in t lr root fn kind what with
   | Some (pts, p) => match run_cancelled pts (Running p) [block_forever] with Running _ => true | Returned => false end
   | None => false
   end.
+Definition hangs_once := hangs_once_in block_points loop_reach.
 
-Lemma witnesses_hang :
-  hangs_once "AggregationLoop" "AggregationLoop" "sleep" "delay" = true /\
-  hangs_once "RetrieveLoop" "handlePotentialHeader" "send" "m.headerInCh" = true /\
-  hangs_once "AggregationLoop" "publishBlockInternal" "wait" "g.Wait" = true.
-Proof. vm_compute. repeat split; reflexivity. Qed.
+Lemma wait_hangs : hangs_once "AggregationLoop" "publishBlockInternal" "wait" "g.Wait" = true.
+Proof. vm_compute. reflexivity. Qed.
 
 Definition w_reach : list string := nth 0 (map snd loop_reach) [].
-Definition w_pts : list bpoint := activity_points block_points w_reach.
-Definition w_p : bpoint := {| bp_func := "AggregationLoop"; bp_kind := "sleep"; bp_what := "delay"; bp_cancellable := false |}.
+Definition w_p : bpoint := {| bp_func := "publishBlockInternal"; bp_kind := "wait"; bp_what := "g.Wait"; bp_cancellable := false |}.
+Fixpoint index_of (f : bpoint -> bool) (l : list bpoint) : nat :=
+  match l with [] => 0 | x :: r => if f x then 0 else S (index_of f r) end.
+Definition w_idx : nat := index_of is_broadcast_wait (activity_points block_points w_reach).
 
 Lemma w_root : nth_error loop_reach 0 = Some ("AggregationLoop", w_reach).
 Proof. vm_compute. reflexivity. Qed.
-Lemma w_point : nth_error (activity_points block_points w_reach) 0 = Some w_p.
+Lemma w_point : nth_error (activity_points block_points w_reach) w_idx = Some w_p.
 Proof. vm_compute. reflexivity. Qed.
 Lemma w_hangs : run_cancelled (activity_points block_points w_reach) (Running w_p) [block_forever] = Running w_p.
 Proof. vm_compute. reflexivity. Qed.
